@@ -153,7 +153,7 @@ pub fn run_c15(cfg: &Cfg) -> i32 {
             let _ = initial.apply(&payload);
         }
         let before = initial.clone();
-        let script = Script { running: e2e::running_config(&managed), faults: vec![], fail_connections: vec![], ephemeral_name: "bgpfu".into(), chunk: 0, slow_commit: vec![] };
+        let script = Script { running: e2e::running_config(&managed), faults: vec![], fail_connections: vec![], ephemeral_name: "bgpfu".into(), chunk: 0, slow_commit: vec![], faults_only_session: None, late_ms: 0 };
         let (run, shared) = rt.block_on(async {
             let j = FakeJunos::start(script, initial).await.expect("fake junos");
             let run = e2e::run_agent(j.port, irr.port(), 0, &["-v"], &[], Duration::from_secs(25)).await;
@@ -277,7 +277,7 @@ pub fn run_l2(cfg: &Cfg, prop: L2) -> i32 {
         let mut managed: BTreeMap<String, (String, Option<Expr>)> = BTreeMap::new();
         let names = ["fltr-a", "fltr-b", "fltr-c", "fltr-d", "fltr-e", "fltr-f", "fltr-g"];
         let history_json: std::cell::RefCell<Vec<Value>> = std::cell::RefCell::new(Vec::new());
-        let script0 = Script { running: String::new(), faults: vec![], fail_connections: vec![], ephemeral_name: "bgpfu".into(), chunk: 0, slow_commit: vec![] };
+        let script0 = Script { running: String::new(), faults: vec![], fail_connections: vec![], ephemeral_name: "bgpfu".into(), chunk: 0, slow_commit: vec![], faults_only_session: None, late_ms: 0 };
         let mut eph = Config::default();
         'steps: for step in 0..steps {
             // evolve the managed set
@@ -615,7 +615,7 @@ pub fn run_c20_agent(cfg: &Cfg) -> i32 {
         let to_file = r.chance(1, 3);
         let logfile = std::env::temp_dir().join(format!("vh-agent-log-{}-{idx}.log", std::process::id()));
         let managed = vec![("fltr-0".to_string(), "AS65000".to_string())];
-        let script = Script { running: e2e::running_config(&managed), faults: vec![], fail_connections: vec![outcome == "peer-drops"], ephemeral_name: "bgpfu".into(), chunk: 0, slow_commit: vec![] };
+        let script = Script { running: e2e::running_config(&managed), faults: vec![], fail_connections: vec![outcome == "peer-drops"], ephemeral_name: "bgpfu".into(), chunk: 0, slow_commit: vec![], faults_only_session: None, late_ms: 0 };
         // unusual but plausible file layouts: bundles that contain the private key
         let bundle = std::env::temp_dir().join(format!("vh-bundle-{}-{idx}.pem", std::process::id()));
         let cat = |files: &[&str]| -> String {
@@ -724,11 +724,24 @@ struct DaemonObs {
     signals: Vec<(String, f64)>,
     stderr: String,
     overshoot_ms: f64,
+    silent_irr_connections: usize,
 }
 
 /// Run the daemon under the dilation shim. `outcomes[k]` = does connection k succeed?
 /// `signals` = (virtual second, signal) to send. Ends at `end_at` virtual seconds (SIGKILL if still alive).
-fn run_daemon(k: f64, period: u64, outcomes: &[bool], signals: &[(f64, i32)], end_at: f64, slow: &[(usize, f64)]) -> Result<DaemonObs, String> {
+/// extra conditions of a daemon scenario
+#[derive(Clone, Debug, Default)]
+struct DaemonOpts {
+    /// TOKIO_WORKER_THREADS for the agent (a single-core routing engine)
+    workers: Option<u32>,
+    /// Some(release): the first run fails early (its installed-policies fetch is refused) while the
+    /// reply to its candidates fetch arrives late, so that its evaluation task outlives it; the
+    /// IRRd accepts that task's connection and stays silent until `release` (virtual seconds),
+    /// then answers everything it was asked. Later connections are served normally.
+    leftover_evaluation_on_silent_irr: Option<f64>,
+}
+
+fn run_daemon(k: f64, period: u64, outcomes: &[bool], signals: &[(f64, i32)], end_at: f64, slow: &[(usize, f64)], opts: &DaemonOpts) -> Result<DaemonObs, String> {
     let rt = rt();
     let irr = Server::start(crate::c04::simple_db(1), Faults::default()).map_err(|e| format!("irrd: {e}"))?;
     let target = std::env::var("VH_TARGET").unwrap_or_else(|_| "/verif/target".into());
@@ -736,13 +749,84 @@ fn run_daemon(k: f64, period: u64, outcomes: &[bool], signals: &[(f64, i32)], en
     if !std::path::Path::new(&shim).exists() {
         return Err("dilate.so not built".into());
     }
-    let fail: Vec<bool> = outcomes.iter().map(|s| !*s).chain(std::iter::repeat(true).take(64)).collect();
+    let mut fail: Vec<bool> = outcomes.iter().map(|s| !*s).chain(std::iter::repeat(true).take(64)).collect();
     let slow_commit: Vec<(usize, u64)> = slow.iter().map(|(c, virt_s)| (*c, (virt_s / k * 1000.0) as u64)).collect();
-    let script = Script { running: e2e::running_config(&[]), faults: vec![], fail_connections: fail, ephemeral_name: "bgpfu".into(), chunk: 0, slow_commit };
+    let mut script = Script { running: e2e::running_config(&[("fltr-0".to_string(), "AS65000".to_string())]), faults: vec![], fail_connections: vec![], ephemeral_name: "bgpfu".into(), chunk: 0, slow_commit, faults_only_session: None, late_ms: 0 };
+    if opts.leftover_evaluation_on_silent_irr.is_some() {
+        // session 0 fails through its second get-config, not by being dropped at the hello
+        fail[0] = false;
+        script.faults = vec![("get-config".into(), 0, e2e::FaultKind::HoldOk), ("get-config".into(), 1, e2e::FaultKind::RpcError)];
+        script.faults_only_session = Some(0);
+        script.late_ms = 40;
+    } else {
+        script.running = e2e::running_config(&[]);
+    }
+    script.fail_connections = fail;
+    let irr_real_port = irr.port();
+    let silent_release = opts.leftover_evaluation_on_silent_irr;
     let res = rt.block_on(async {
         let j = FakeJunos::start(script, Config::default()).await.map_err(|e| format!("junos: {e}"))?;
+        // the IRRd the agent talks to: the fake IRRd itself, or a front that keeps the first
+        // connection silent until the release time and passes all later ones through
+        let t_front = Instant::now();
+        let mut irr_port = irr_real_port;
+        let silent_conns = std::sync::Arc::new(std::sync::atomic::AtomicUsize::new(0));
+        if let Some(release) = silent_release {
+            let lst = tokio::net::TcpListener::bind(("127.0.0.1", 0)).await.map_err(|e| format!("irr front: {e}"))?;
+            irr_port = lst.local_addr().map_err(|e| format!("{e}"))?.port();
+            let sc = silent_conns.clone();
+            let jt0 = j.t0;
+            let shared = j.shared.clone();
+            tokio::spawn(async move {
+                let mut n = 0usize;
+                loop {
+                    let Ok((mut c, _)) = lst.accept().await else { return };
+                    n += 1;
+                    if n == 1 {
+                        sc.fetch_add(1, std::sync::atomic::Ordering::SeqCst);
+                        let shared = shared.clone();
+                        tokio::spawn(async move {
+                            use tokio::io::{AsyncReadExt, AsyncWriteExt};
+                            // silent until the release time: what the client sends is kept, and
+                            // answered by the real fake IRRd afterwards (an IRRd that was slow, not dead)
+                            let mut kept: Vec<u8> = Vec::new();
+                            let mut buf = [0u8; 4096];
+                            loop {
+                                // virtual time counts from the daemon's first NETCONF connection
+                                let start_ms = shared.lock().unwrap().sessions.first().map(|s| s.0 as f64);
+                                let now_ms = jt0.elapsed().as_secs_f64() * 1000.0;
+                                if let Some(st) = start_ms {
+                                    if (now_ms - st) / 1000.0 * k >= release {
+                                        break;
+                                    }
+                                }
+                                match tokio::time::timeout(Duration::from_millis(2), c.read(&mut buf)).await {
+                                    Ok(Ok(0)) | Ok(Err(_)) => return,
+                                    Ok(Ok(n)) => kept.extend_from_slice(&buf[..n]),
+                                    Err(_) => {}
+                                }
+                            }
+                            if let Ok(mut up) = tokio::net::TcpStream::connect(("127.0.0.1", irr_real_port)).await {
+                                let _ = up.write_all(&kept).await;
+                                let _ = tokio::io::copy_bidirectional(&mut c, &mut up).await;
+                            }
+                        });
+                    } else {
+                        tokio::spawn(async move {
+                            if let Ok(mut up) = tokio::net::TcpStream::connect(("127.0.0.1", irr_real_port)).await {
+                                let _ = tokio::io::copy_bidirectional(&mut c, &mut up).await;
+                            }
+                        });
+                    }
+                }
+            });
+        }
+        let _ = t_front;
         let mut cmd = tokio::process::Command::new(e2e::agent_bin());
-        cmd.args(["-f", &period.to_string(), "--irrd-host", "127.0.0.1", "--irrd-port", &irr.port().to_string(), "-v"]);
+        cmd.args(["-f", &period.to_string(), "--irrd-host", "127.0.0.1", "--irrd-port", &irr_port.to_string(), "-v"]);
+        if let Some(w) = opts.workers {
+            cmd.env("TOKIO_WORKER_THREADS", w.to_string());
+        }
         cmd.args(["remote", "--netconf-host", "127.0.0.1", "--netconf-port", &j.port.to_string(), "--ca-cert-path", &e2e::pki("ca.crt"), "--client-cert-path", &e2e::pki("client.crt"), "--client-key-path", &e2e::pki("client.key")]);
         cmd.env_remove("RUST_LOG").env("LD_PRELOAD", &shim).env("VH_DILATE", format!("{k}"));
         cmd.stdin(std::process::Stdio::null()).stdout(std::process::Stdio::null()).stderr(std::process::Stdio::piped()).kill_on_drop(true);
@@ -805,7 +889,8 @@ fn run_daemon(k: f64, period: u64, outcomes: &[bool], signals: &[(f64, i32)], en
         let closes: Vec<Option<f64>> = j.shared.lock().unwrap().sessions.iter().map(|s| s.1.map(|c| virt(c as f64))).collect();
         j.stop();
         let logged: Vec<u64> = stderr.lines().filter_map(|l| l.split("trying in ").nth(1)).filter_map(|r| r.split(' ').next()).filter_map(|n| n.parse().ok()).collect();
-        Ok(DaemonObs { accepts, closes, logged_delays: logged, exit, exit_at, signals: sent, stderr, overshoot_ms: overshoot })
+        let silent = silent_conns.load(std::sync::atomic::Ordering::SeqCst);
+        Ok(DaemonObs { accepts, closes, logged_delays: logged, exit, exit_at, signals: sent, stderr, overshoot_ms: overshoot, silent_irr_connections: silent })
     });
     irr.stop();
     res
@@ -831,19 +916,25 @@ pub fn run_c19(cfg: &Cfg) -> i32 {
         end: f64,
         name: &'static str,
         slow: Vec<(usize, f64)>,
+        opts: DaemonOpts,
     }
     let mut scs: Vec<Sc> = vec![
         // enough consecutive failures for the doubling to reach (and have to respect) the cap
-        Sc { period: 300, outcomes: vec![false, false, false, false, false, true, false], signals: vec![], end: 60.0 + 120.0 + 240.0 + 300.0 + 300.0 + 300.0 + 60.0 + 30.0, name: "p300:FFFFFSF", slow: vec![] },
-        Sc { period: 90, outcomes: vec![false, false, false, true, false], signals: vec![], end: 60.0 + 90.0 + 90.0 + 90.0 + 60.0 + 30.0, name: "p90:FFFSF", slow: vec![] },
+        Sc { period: 300, outcomes: vec![false, false, false, false, false, true, false], signals: vec![], end: 60.0 + 120.0 + 240.0 + 300.0 + 300.0 + 300.0 + 60.0 + 30.0, name: "p300:FFFFFSF", slow: vec![], opts: DaemonOpts::default() },
+        Sc { period: 90, outcomes: vec![false, false, false, true, false], signals: vec![], end: 60.0 + 90.0 + 90.0 + 90.0 + 60.0 + 30.0, name: "p90:FFFSF", slow: vec![], opts: DaemonOpts::default() },
         // a successful run that lasts longer than the period: the period must be measured from its end
-        Sc { period: 60, outcomes: vec![true, true, true, true], signals: vec![], end: 150.0 + 60.0 * 3.0 + 40.0, name: "p60:S(slow,150s)SSS", slow: vec![(0, 150.0)] },
-        Sc { period: 300, outcomes: vec![true, true], signals: vec![(100.0, libc::SIGHUP), (250.0, libc::SIGTERM)], end: 400.0, name: "p300:S+SIGHUP@100+SIGTERM@250", slow: vec![] },
-        Sc { period: 0, outcomes: vec![true], signals: vec![], end: 200.0, name: "p0:one-shot", slow: vec![] },
+        Sc { period: 60, outcomes: vec![true, true, true, true], signals: vec![], end: 150.0 + 60.0 * 3.0 + 40.0, name: "p60:S(slow,150s)SSS", slow: vec![(0, 150.0)], opts: DaemonOpts::default() },
+        Sc { period: 300, outcomes: vec![true, true], signals: vec![(100.0, libc::SIGHUP), (250.0, libc::SIGTERM)], end: 400.0, name: "p300:S+SIGHUP@100+SIGTERM@250", slow: vec![], opts: DaemonOpts::default() },
+        Sc { period: 0, outcomes: vec![true], signals: vec![], end: 200.0, name: "p0:one-shot", slow: vec![], opts: DaemonOpts::default() },
         // signals that arrive while the daemon is waiting out a back-off (not the normal period)
-        Sc { period: 300, outcomes: vec![false, false], signals: vec![(30.0, libc::SIGHUP), (100.0, libc::SIGINT)], end: 300.0, name: "p300:F+SIGHUP@30(in backoff)+SIGINT@100(in backoff)", slow: vec![] },
-        Sc { period: 300, outcomes: vec![false], signals: vec![(10.0, libc::SIGTERM)], end: 200.0, name: "p300:F+SIGTERM@10(in backoff)", slow: vec![] },
-        Sc { period: 600, outcomes: vec![false, false, true], signals: vec![(60.0 + 50.0, libc::SIGHUP), (60.0 + 50.0 + 200.0, libc::SIGTERM)], end: 600.0, name: "p600:FF+SIGHUP@110(in 2nd backoff)S+SIGTERM@310(in period)", slow: vec![] },
+        Sc { period: 300, outcomes: vec![false, false], signals: vec![(30.0, libc::SIGHUP), (100.0, libc::SIGINT)], end: 300.0, name: "p300:F+SIGHUP@30(in backoff)+SIGINT@100(in backoff)", slow: vec![], opts: DaemonOpts::default() },
+        Sc { period: 300, outcomes: vec![false], signals: vec![(10.0, libc::SIGTERM)], end: 200.0, name: "p300:F+SIGTERM@10(in backoff)", slow: vec![], opts: DaemonOpts::default() },
+        // a single worker thread, and a run that fails while its evaluation task is still going to
+        // talk to an IRRd that does not answer: the waiting daemon must stay responsive
+        Sc { period: 300, outcomes: vec![false, true], signals: vec![(20.0, libc::SIGHUP), (100.0, libc::SIGTERM)], end: 220.0,
+            name: "p300:one-worker-thread:F(evaluation left behind on a silent IRRd until 40s)+SIGHUP@20+S+SIGTERM@100", slow: vec![],
+            opts: DaemonOpts { workers: Some(1), leftover_evaluation_on_silent_irr: Some(40.0) } },
+        Sc { period: 600, outcomes: vec![false, false, true], signals: vec![(60.0 + 50.0, libc::SIGHUP), (60.0 + 50.0 + 200.0, libc::SIGTERM)], end: 600.0, name: "p600:FF+SIGHUP@110(in 2nd backoff)S+SIGTERM@310(in period)", slow: vec![], opts: DaemonOpts::default() },
     ];
     if cfg.thorough() {
         for (period, name) in [(30u64, "p30:FFFSF"), (60, "p60:FFFSF"), (100, "p100:FFFFSF"), (150, "p150:FFFFF"), (1000, "p1000:FFFFFFF"), (3600, "p3600:FFFFFFFFF")] {
@@ -860,10 +951,10 @@ pub fn run_c19(cfg: &Cfg) -> i32 {
                 end += if *o { period as f64 } else { b };
                 b = if *o { 60.0 } else { (b * 2.0).min(period as f64) };
             }
-            scs.push(Sc { period, outcomes, signals: vec![], end: end + 30.0, name, slow: vec![] });
+            scs.push(Sc { period, outcomes, signals: vec![], end: end + 30.0, name, slow: vec![], opts: DaemonOpts::default() });
         }
-        scs.push(Sc { period: 120, outcomes: vec![true, false, true], signals: vec![(50.0, libc::SIGHUP), (60.0, libc::SIGHUP)], end: 400.0, name: "p120:S+2xSIGHUP", slow: vec![] });
-        scs.push(Sc { period: 100, outcomes: vec![true, false, true, true], signals: vec![], end: 260.0 + 60.0 + 100.0 + 100.0 + 40.0, name: "p100:S(slow,260s)FSS", slow: vec![(0, 260.0)] });
+        scs.push(Sc { period: 120, outcomes: vec![true, false, true], signals: vec![(50.0, libc::SIGHUP), (60.0, libc::SIGHUP)], end: 400.0, name: "p120:S+2xSIGHUP", slow: vec![], opts: DaemonOpts::default() });
+        scs.push(Sc { period: 100, outcomes: vec![true, false, true, true], signals: vec![], end: 260.0 + 60.0 + 100.0 + 100.0 + 40.0, name: "p100:S(slow,260s)FSS", slow: vec![(0, 260.0)], opts: DaemonOpts::default() });
     }
     let scs: Vec<Sc> = scs.into_iter().enumerate().filter(|(i, _)| (*i as u64) % cfg.shards == cfg.shard).map(|(_, s)| s).collect();
     // run the scenarios 4 at a time (each has its own runtime, fake Junos, fake IRRd and daemon)
@@ -872,12 +963,12 @@ pub fn run_c19(cfg: &Cfg) -> i32 {
         let handles: Vec<_> = chunk
             .iter()
             .map(|&i| {
-                let (period, outcomes, signals, end, slow) = (scs[i].period, scs[i].outcomes.clone(), scs[i].signals.clone(), scs[i].end, scs[i].slow.clone());
+                let (period, outcomes, signals, end, slow, opts) = (scs[i].period, scs[i].outcomes.clone(), scs[i].signals.clone(), scs[i].end, scs[i].slow.clone(), scs[i].opts.clone());
                 std::thread::spawn(move || {
                     let mut k = 120.0;
                     let mut reruns = 0u64;
                     loop {
-                        match run_daemon(k, period, &outcomes, &signals, end, &slow) {
+                        match run_daemon(k, period, &outcomes, &signals, end, &slow, &opts) {
                             Ok(o) if o.overshoot_ms > 20.0 && k > 10.0 => {
                                 reruns += 1;
                                 k = if k > 30.0 { 30.0 } else { 10.0 };
@@ -911,6 +1002,13 @@ pub fn run_c19(cfg: &Cfg) -> i32 {
         if o.overshoot_ms > 20.0 {
             rep.inconclusive(sc.name, &format!("harness timer overshoot {:.1} ms even at K={k}", o.overshoot_ms));
             continue;
+        }
+        if sc.opts.leftover_evaluation_on_silent_irr.is_some() {
+            if o.silent_irr_connections == 0 {
+                rep.inconclusive(sc.name, "not exercised: no evaluation task was left behind (nothing connected to the silent IRRd)");
+                continue;
+            }
+            rep.count("evaluation_tasks_left_behind_on_a_silent_irrd");
         }
         let tol = |x: f64| (x * 0.05).max(5.0);
         let wit = |extra: Value| json!({"scenario": sc.name, "period": sc.period, "K": k, "accepts_virtual_s": o.accepts.iter().map(|a| (a * 10.0).round() / 10.0).collect::<Vec<_>>(), "session_ends_virtual_s": o.closes.iter().map(|c| c.map(|a| (a * 10.0).round() / 10.0)).collect::<Vec<_>>(), "logged_delays": o.logged_delays,
